@@ -108,7 +108,7 @@ def check(case, ctx):
     if gone:
         return
     cell = [x + 0.0 for x in case["cell"]]
-    U = S.build_rotation(case["rot"]) + 0.0
+    U = O.ro(S.build_rotation(case["rot"]) + 0.0)
     h = case["hkl"]
     eps = [x + 0.0 for x in case["eps"]]
     ctx.nontrivial(S.is_oblique(cell) and not S.rot_is_axis(U) and any(eps))
@@ -187,8 +187,8 @@ def check(case, ctx):
     d = np.array(case["d"], float)
     d /= np.linalg.norm(d)
     tth = math.radians(case["tthd"])
-    g = math.sin(tth / 2) * d
-    gl = g * case["scale"]
+    g = O.ro(math.sin(tth / 2) * d)
+    gl = O.ro(g * case["scale"])
     chi, wedge = case["chi"] + 0.0, case["wedge"] + 0.0
     for name, ca, cb in (("find_omega_general", lambda: T.find_omega_general(g, tth, chi, wedge), lambda: L.find_omega_general(gl, tth, chi, wedge)),
                          ("find_omega_quart", lambda: T.find_omega_quart(g, tth, chi, wedge), lambda: L.find_omega_quart(gl, tth, chi, wedge)),
